@@ -749,7 +749,17 @@ fn run_case(line: &str) -> String {
                     for e in &events[..k - 1] {
                         timg.apply(e);
                     }
-                    timg.apply(&IoEvent::Write { path: path.clone(), offset: *offset, data: data[..data.len() / 2].to_vec() });
+                    // alternately: the second half never arrived / the file was extended but the second half holds zeros
+                    let torn = if (k / 3) % 2 == 0 {
+                        data[..data.len() / 2].to_vec()
+                    } else {
+                        let mut d = data.clone();
+                        for b in d[data.len() / 2..].iter_mut() {
+                            *b = 0;
+                        }
+                        d
+                    };
+                    timg.apply(&IoEvent::Write { path: path.clone(), offset: *offset, data: torn });
                     let pr = observe_image(&timg, &tables, cfg, false, false);
                     let acked_s = if acked.is_empty() { "-".to_string() } else { acked.iter().map(|u| u.to_string()).collect::<Vec<_>>().join(",") };
                     torn_groups.push((
